@@ -28,17 +28,18 @@ import (
 const genMod = "example.com/m"
 
 type genJob struct {
-	GoVer       string            `json:"go"`
-	Module      string            `json:"module,omitempty"`
-	Files       map[string]string `json:"files"` // rel path → content
-	Entry       []string          `json:"entry"` // load patterns (./p0 …)
-	Gens        []string          `json:"gens"`  // registered generator names
-	Runs        int               `json:"runs"`  // consecutive Execute runs (fresh context each)
-	All         bool              `json:"all,omitempty"`
-	ProbeCommon string            `json:"probe_common,omitempty"`
-	Probes      map[string]string `json:"probes,omitempty"` // package dir → probe file of package main; dropped when that package does not build
-	KeepOnFail  bool              `json:"keep_on_fail,omitempty"`
-	Base        string            `json:"base,omitempty"` // OutputFileBaseName; "" = zz_generated
+	GoVer       string              `json:"go"`
+	Module      string              `json:"module,omitempty"`
+	Files       map[string]string   `json:"files"` // rel path → content
+	Entry       []string            `json:"entry"` // load patterns (./p0 …)
+	Gens        []string            `json:"gens"`  // registered generator names
+	Runs        int                 `json:"runs"`  // consecutive Execute runs (fresh context each)
+	All         bool                `json:"all,omitempty"`
+	ProbeCommon string              `json:"probe_common,omitempty"`
+	Probes      map[string]string   `json:"probes,omitempty"` // package dir → probe file of package main; dropped when that package does not build
+	KeepOnFail  bool                `json:"keep_on_fail,omitempty"`
+	Base        string              `json:"base,omitempty"`  // OutputFileBaseName; "" = zz_generated
+	Edits       []map[string]string `json:"edits,omitempty"` // Edits[r]: files rewritten (rel path → content) after run r and before run r+1 — the sources change between two runs over one tree
 }
 
 func (j *genJob) base() string {
@@ -198,6 +199,11 @@ func runGenJobHere(job *genJob) *genRunOut {
 		out.ExecErr = append(out.ExecErr, errText)
 		out.Generated = append(out.Generated, collectGenerated(root, job.base()))
 		out.BuildFail = append(out.BuildFail, buildPackages(root, mod, job.Entry))
+		if r < len(job.Edits) {
+			for rel, content := range job.Edits[r] {
+				os.WriteFile(filepath.Join(root, rel), []byte(content), 0o644)
+			}
+		}
 	}
 	if job.ProbeCommon != "" {
 		pd := filepath.Join(root, "cmd", "probe")
